@@ -34,9 +34,14 @@ def check_eager_binding(rep, rule):
     # --- Application.__init__
     ai = app.func('Application.__init__')
     cfg = cfg_of(ai)
-    nr = [s for s in stmts_of(ai.node) if isinstance(s, ast.Assign) and isinstance(s.value, ast.Call) and call_tail(s.value) == 'bind'
-          and isinstance(s.value.func.value, ast.Call) and call_name(s.value.func.value) == 'NullRoute'
-          and s.value.args and norm(s.value.args[0]) == 'self']
+    def binds_null_route(v):
+        v = chain._deref(ai, v)
+        if not (isinstance(v, ast.Call) and isinstance(v.func, ast.Attribute) and v.func.attr == 'bind' and v.args and norm(v.args[0]) == 'self'):
+            return False
+        recv = chain._deref(ai, v.func.value)
+        return isinstance(recv, ast.Call) and call_name(recv) == 'NullRoute'
+    nr = [s for s in stmts_of(ai.node) if isinstance(s, ast.Assign) and any(norm(t) == 'self._null_route' for t in s.targets)
+          and binds_null_route(s.value)]
     ok = len(nr) == 1 and cfg.must_pass(cfg.nodes_of(nr[0]), cfg.entry, cfg.exit, normal_only=True) and norm(nr[0].targets[0]) == 'self._null_route'
     rep.check(rule, fkey(ai, 'null route bound'), ok,
               'the catch-all route is bound (with the application middlewares) on every construction path' if ok else
@@ -147,8 +152,9 @@ def check_eager_binding(rep, rule):
     for q in ('Route.bind', 'BoundRoute.bind'):
         f = route.func(q)
         rs = returns_of(f)
-        ok = len(rs) == 1 and isinstance(rs[0].value, ast.Call) and call_name(rs[0].value) == 'BoundRoute' and \
-            [norm(a) for a in rs[0].value.args[:2]] == ['self', f.params()[1]]
+        rv = chain._deref(f, rs[0].value) if len(rs) == 1 and rs[0].value is not None else None
+        ok = len(rs) == 1 and isinstance(rv, ast.Call) and call_name(rv) == 'BoundRoute' and \
+            [norm(a) for a in rv.args[:2]] == ['self', f.params()[1]]
         rep.check(rule, fkey(f), ok, '%s returns BoundRoute(self, app, ...)' % q if ok else '%s does not return a new BoundRoute(self, app)' % q, route, f.node)
     nb = route.func('NullRoute.bind')
     rs = returns_of(nb)
@@ -162,7 +168,15 @@ def check_eager_binding(rep, rule):
     ok = bool(cm) and cfg.must_pass(cfg.nodes_of_all(cm), cfg.entry, cfg.exit, normal_only=True)
     rep.check(rule, fkey(bi, 'check_middlewares'), ok, 'check_middlewares(...) is on every normal path of binding' if ok else
               'a BoundRoute can be constructed without check_middlewares', route, cm[0] if cm else bi.node)
-    ok = len(mk) == 1 and cfg.must_pass(cfg.nodes_of(mk[0]), cfg.entry, cfg.exit, normal_only=True) and norm(mk[0].targets[0]) == 'self._execute'
+    def stored_in_execute(st):
+        t = norm(st.targets[0])
+        if t == 'self._execute':
+            return True
+        # chain = make_middleware_chain(...); self._execute = chain
+        ex_asg = [s for s in stmts_of(bi.node) if isinstance(s, ast.Assign) and any(norm(x) == 'self._execute' for x in s.targets)]
+        return isinstance(st.targets[0], ast.Name) and len(assigned_value(bi.node, t)) == 1 and len(ex_asg) == 1 and \
+            norm(ex_asg[0].value) == t and cfg.must_pass(cfg.nodes_of(ex_asg[0]), cfg.nodes_of(st), cfg.exit, normal_only=True)
+    ok = len(mk) == 1 and cfg.must_pass(cfg.nodes_of(mk[0]), cfg.entry, cfg.exit, normal_only=True) and stored_in_execute(mk[0])
     rep.check(rule, fkey(bi, 'make_middleware_chain'), ok,
               'the chain is built (and all NameErrors raised) on every normal path of binding; result stored in self._execute' if ok else
               'a BoundRoute can be constructed without building its chain (lazy or skipped dependency check)', route, mk[0] if mk else bi.node)
@@ -197,7 +211,8 @@ def check_eager_binding(rep, rule):
               '_execute is written at: %s' % ', '.join('%s' % w[1].key for w in writers), route, bi.node)
     ex = route.func('BoundRoute.execute')
     inj = [c for c in walk_body(ex.node) if isinstance(c, ast.Call) and call_name(c) == 'inject']
-    ok = len(inj) == 1 and norm(inj[0].args[0]) == 'self._execute' and any(r.value is inj[0] for r in returns_of(ex))
+    ok = len(inj) == 1 and norm(inj[0].args[0]) == 'self._execute' and \
+        any(r.value is not None and chain._deref(ex, r.value) is inj[0] for r in returns_of(ex))
     rep.check(rule, fkey(ex, 'inject(self._execute)'), ok, 'execute() runs exactly the chain compiled at bind time' if ok else
               'execute() does not inject into the chain compiled at bind time', route, ex.node)
     # no code between chain construction and use rebuilds lazily: BoundRoute has no __getattr__/property named _execute
